@@ -6,7 +6,8 @@ Checks, in /tmp/seed-Cxx: demo passes on the original code; with SEED/patch.diff
 project builds, the existing tests pass (demo moved aside) and the demo fails."""
 import json, os, shlex, shutil, subprocess, sys
 cid = sys.argv[1]
-wt = "/tmp/seed-" + cid
+prefix = os.environ.get("SEED_PREFIX", "seed")
+wt = "/tmp/%s-%s" % (prefix, cid)
 env = dict(os.environ, GOFLAGS="-mod=mod")
 def sh(cmd, **kw):
     return subprocess.run(cmd, shell=True, cwd=wt, env=env, capture_output=True, text=True, timeout=900, **kw)
@@ -42,6 +43,8 @@ if not ok:
     print("NOT CONFIRMED", demo_tail); sys.exit(2)
 slug = sys.argv[2] if len(sys.argv) > 2 else "agent"
 dst = "/verif/seeded/%s-%s" % (cid, slug)
+if prefix != "seed":
+    dst = "/verif/seeded/%s-r2-%s" % (cid, slug)
 os.makedirs(dst, exist_ok=True)
 shutil.copy(wt + "/SEED/patch.diff", dst + "/patch.diff")
 if demo and os.path.exists(os.path.join(wt, demo)):
